@@ -191,10 +191,11 @@ func SafeDiv[T Integer](x T, y T) (T, error) {
 	return result, nil
 }
 
+// Returns val << shift (val * 2^shift) or an error if that computation would under- or overflow.
 func SafeLeftShift[T Integer](val T, shift uint8) (T, error) {
 	result := val << shift
-	// if the result is smaller than the original value, we have an overflow
-	if result < val {
+	// if shifting the result back does not restore the original value, bits (or the sign) were lost
+	if result>>shift != val {
 		return 0, ierrors.WithMessagef(ErrIntegerOverflow, "%d << %d", val, shift)
 	}
 
